@@ -325,6 +325,15 @@ class Node:
             )
 
         if new_data_id:
+            # The new data_id must not exist among the siblings of a modified node
+            modified = cur_nodes if (has_clones and with_clones) else [self]
+            for n in modified:
+                for c in n._parent.children:
+                    if c._data_id == new_data_id and not any(c is m for m in modified):
+                        raise UniqueConstraintError(
+                            f"Node.data already exists in parent: {c}"
+                        )
+
             # data_id (and possibly data) changes: we have to update the map
             if has_clones:
                 if with_clones:
@@ -796,6 +805,13 @@ class Node:
                 f"must be a child of target node ({new_parent})"
             )
 
+        if new_parent is not self._parent:
+            for c in new_parent.children:
+                if c._data_id == self._data_id:
+                    raise UniqueConstraintError(
+                        f"Node.data already exists in parent: {self}"
+                    )
+
         self._parent._children.pop(self._get_sibling_index())  # type: ignore
         if not self._parent._children:  # store None instead of `[]`
             self._parent._children = None
@@ -830,6 +846,19 @@ class Node:
         If `with_clones` is true, all nodes that reference the same data
         instance are removed as well.
         """
+        if keep_children:
+            # The children become siblings of this node: check for conflicts
+            # first, because we must not fail after some were moved
+            for n in self.get_clones(add_self=True) if with_clones else (self,):
+                sibling_ids = {
+                    c._data_id for c in n._parent.children if c is not n
+                }
+                for c in n.children:
+                    if c._data_id in sibling_ids:
+                        raise UniqueConstraintError(
+                            f"Node.data already exists in parent: {c}"
+                        )
+
         if with_clones:
             for c in self.get_clones():  # Excluding self
                 if c._tree is None:
